@@ -104,11 +104,10 @@ def build(a):
     elif a["markers"] == 2:
         plist = [self_, before, "*", main, extra] if not before or "=" not in before else [self_, "*", before, main, extra]
     else:
-        # a defaulted parameter may not precede a non-default one
+        # a defaulted parameter may not precede a non-default one — unless they are keyword-only; the
+        # token must stay a fixture REQUEST (a parameter with a default value requests nothing)
         if before and "=" in before:
-            main2 = main + "=None" if a["annot"] == 0 else "fx_name: int = None"
-            extra2 = extra if "=" in extra else extra + "=None"
-            plist = [self_, before, main2, extra2]
+            plist = [self_, "*", before, main, extra]
         else:
             plist = [self_, before, main, extra]
     plist = [p for p in plist if p]
